@@ -366,16 +366,27 @@ func (w *xWorld) globSnap() [2]statCounts {
 // call runs one counter call.  While the printer is parked a call with a country code cannot return (it needs c.m):
 // it runs in a goroutine and the driver waits until its family-wide atomics have landed and nothing moves any more.
 func (w *xWorld) call(f func(), needsLock bool) {
-	if !w.parked || !needsLock {
+	if !w.parked {
 		f()
 		return
 	}
 	before := w.globSnap()
+	done := make(chan struct{})
 	w.halves.Add(1)
 	go func() {
 		defer w.halves.Done()
 		f()
+		close(done)
 	}()
+	if !needsLock {
+		// no country code: the call touches no table and must return although the printer holds the mutex
+		select {
+		case <-done:
+		case <-time.After(2 * time.Second):
+			w.stalled = true
+		}
+		return
+	}
 	deadline := time.Now().Add(2 * time.Second)
 	changedAt := time.Time{}
 	last := before
